@@ -192,6 +192,9 @@ class Engine:
             if desc in ('str', 'callable'):
                 st.assume(z3.Not(run_isnone(v.term)))
             return v
+        if desc == 'partition':
+            return TupleV([Num(fresh(name + '_jobs', Int)), SeqV('I', fresh(name + '_counts', ISeq), True),
+                           SeqV('I', fresh(name + '_starts', ISeq), True)])
         if desc == 'optrlist':
             v = SeqV('R', fresh(name, RSeq), True)      # an optional list: None is a distinguished value of the sort
             v.maybe_none = True
